@@ -75,6 +75,7 @@ type cfgT struct {
 	realStop []bool
 	withX    bool // one more client (index nCl) that reaches the relay through relay R2
 	r2Lim    bool
+	nPro     int
 	ops      []opT
 }
 
@@ -144,11 +145,16 @@ func drawCfg(g simrt.Gen) *cfgT {
 		h := g.Int(len(ipPool))
 		c.home = append(c.home, ipPool[h])
 		c.alt = append(c.alt, ipPool[(h+1+g.Int(len(ipPool)-1))%len(ipPool)])
-		c.realStop = append(c.realStop, g.Chance(1, 4))
+		c.realStop = append(c.realStop, g.Chance(1, 3))
 	}
 	c.withX = g.Chance(1, 4)
 	c.r2Lim = g.Bool()
-	nOps := 4 + g.Int(9)
+	// prologue: the first clients reserve, so that later CONNECTs mostly aim at reservation holders
+	c.nPro = 1 + g.Int(3)
+	for i := 0; i < c.nPro; i++ {
+		c.ops = append(c.ops, opT{kind: opReserve, a: i, raw: g.Bool()})
+	}
+	nOps := 3 + g.Int(9)
 	for i := 0; i < nOps; i++ {
 		c.ops = append(c.ops, drawOp(g, c, c.stratum == 2))
 	}
@@ -156,15 +162,13 @@ func drawCfg(g simrt.Gen) *cfgT {
 }
 
 func drawOp(g simrt.Gen, c *cfgT, batchOK bool) opT {
-	n := c.nAll()
 	var op opT
 	wBatch := 0
 	if batchOK {
 		wBatch = 8
 	}
-	op.kind = g.Weighted(7, 7, 3, 2, 3, 2, 1, wBatch)
-	op.a = g.Int(n)
-	op.b = (op.a + 1 + g.Int(n-1)) % n
+	op.kind = g.Weighted(7, 7, 3, 2, 3, 2, 2, wBatch)
+	op.a, op.b = drawPair(g, c)
 	switch op.kind {
 	case opReserve:
 		op.raw = g.Bool()
@@ -190,8 +194,7 @@ func drawOp(g simrt.Gen, c *cfgT, batchOK bool) opT {
 		for i := 0; i < k; i++ {
 			var s opT
 			s.kind = []int{opReserve, opConnect, opDisconnect}[g.Weighted(4, 4, 1)]
-			s.a = g.Int(n)
-			s.b = (s.a + 1 + g.Int(n-1)) % n
+			s.a, s.b = drawPair(g, c)
 			s.raw = g.Bool()
 			s.hold = true
 			op.sub = append(op.sub, s)
@@ -211,6 +214,21 @@ func drawOp(g simrt.Gen, c *cfgT, batchOK bool) opT {
 		op.ioK = 1 + g.Int(12)
 	}
 	return op
+}
+
+// drawPair draws an actor a and a distinct partner b; three times out of four b is one of the
+// clients that reserved in the prologue.
+func drawPair(g simrt.Gen, c *cfgT) (int, int) {
+	n := c.nAll()
+	a := g.Int(n)
+	b := (a + 1 + g.Int(n-1)) % n
+	if g.Chance(3, 4) {
+		b = g.Int(c.nPro)
+		if a == b {
+			a = (b + 1 + g.Int(n-1)) % n
+		}
+	}
+	return a, b
 }
 
 func (c *cfgT) size(sel int) int {
